@@ -50,7 +50,7 @@ func c10Setup(seed int64, idx int) (*tcCtx, influxql.Valuer, *tcNode) {
 		valuer = &influxql.NowValuer{Now: fixedNow}
 	case 2:
 		c.useNow = true
-		c.loc, _ = time.LoadLocation("America/New_York")
+		c.loc = tcZone(rg.Pick("America/New_York", "America/New_York", "Australia/Sydney", "Pacific/Auckland", "America/Los_Angeles", "Europe/London", "Pacific/Chatham"))
 		valuer = &influxql.NowValuer{Now: fixedNow, Location: c.loc}
 	case 3:
 		c.useNow = true
